@@ -20,6 +20,9 @@ import (
 	"github.com/Oudwins/zog/parsers/zjson"
 	"github.com/Oudwins/zog/zconst"
 	"github.com/Oudwins/zog/zenv"
+	"github.com/Oudwins/zog/zhttp"
+	"net/http"
+	"net/http/httptest"
 
 	"zogverif/internal/core"
 	"zogverif/internal/gen"
@@ -414,6 +417,15 @@ func c07OddShapes(c *core.Ctx) {
 		lv := login{User: "a", Pass: "long enough"}
 		b2 := loginSchema.Validate(&lv)
 		d := z.Slice(z.String().Min(2)).Parse([]any{"ok", "x"}, &tags)
+		// a callback that looks up context values nobody passed to this call (under the empty key too)
+		var seen []any
+		var s0 string
+		z.String().TestFunc(func(v any, ctx z.Ctx) bool { seen = append(seen, ctx.Get(""), ctx.Get("lang"), ctx.Get("tenant")); return true }).Parse("x", &s0)
+		for _, x := range seen {
+			if x != nil {
+				return fmt.Sprintf("a call without context values saw ctx.Get(\"\"), ctx.Get(lang), ctx.Get(tenant) = %v", seen)
+			}
+		}
 		all1, _ := obs.CanonMap(b)
 		all2, _ := obs.CanonMap(b2)
 		all3, _ := obs.CanonMap(d)
@@ -424,7 +436,28 @@ func c07OddShapes(c *core.Ctx) {
 	const want = "||gt / pass|pass|min\nuser|user|min / user|user|min / [1]|[1]|min"
 	for round := 0; round < 12; round++ {
 		var what string
-		switch c.R.Intn(4) {
+		switch c.R.Intn(7) {
+		case 4:
+			what = "Parse with context values (lang, tenant)"
+			var s1 string
+			z.String().Min(5).Parse("ab", &s1, z.WithCtxValue("lang", "es"), z.WithCtxValue("tenant", "t1"))
+		case 5:
+			what = "Validate of a struct holding an empty list whose Default is an empty, non-nil list"
+			var v struct {
+				L []string
+				M [][]string
+				Z string
+				Y string
+			}
+			z.Struct(z.Schema{"l": z.Slice(z.String()).Default([]string{}), "m": z.Slice(z.Slice(z.String()).Default([]string{})), "z": z.String().Required(), "y": z.String().Required()}).Validate(&v)
+			v.M = [][]string{nil, {"a"}}
+			z.Struct(z.Schema{"l": z.Slice(z.String()).Default([]string{}), "m": z.Slice(z.Slice(z.String().Min(3)).Default([]string{})), "z": z.String().Required(), "y": z.String().Required()}).Validate(&v)
+		case 6:
+			what = "a JSON request parsed with the shipped parser, before the application installs its own"
+			r := httptest.NewRequest("POST", "/", strings.NewReader(`{"user":"abc","pass":"12345678"}`))
+			r.Header.Set("Content-Type", "application/json")
+			var l login
+			loginSchema.Parse(zhttp.Request(r), &l)
 		case 0:
 			what = "Validate of a zero struct through a schema key that names its embedded struct"
 			var d c07Doc
@@ -455,6 +488,19 @@ func c07OddShapes(c *core.Ctx) {
 			}()
 		}
 		c.Eval(5)
+		// "the global configuration at that moment": a body parser installed now is used by the next request
+		savedJSON := zhttp.Config.Parsers.JSON
+		used := 0
+		zhttp.Config.Parsers.JSON = func(r *http.Request) p.DpFactory { used++; return savedJSON(r) }
+		rq := httptest.NewRequest("POST", "/", strings.NewReader(`{"user":"abc","pass":"12345678"}`))
+		rq.Header.Set("Content-Type", "application/json")
+		var lg login
+		loginSchema.Parse(zhttp.Request(rq), &lg)
+		zhttp.Config.Parsers.JSON = savedJSON
+		if used != 1 || lg.User != "abc" {
+			c.Violation("execution-not-isolated|configuration-of-an-earlier-moment", map[string]any{"earlier_execution": what, "observed": fmt.Sprintf("zhttp.Config.Parsers.JSON was replaced before this request; the replacement was used %d time(s), destination %+v", used, lg)})
+			return
+		}
 		for k := 0; k < 3; k++ {
 			if got := probe(); got != want {
 				c.Violation("execution-not-isolated|after-an-unusual-execution", map[string]any{"earlier_execution": what, "later_executions": "Int().GT(0).Parse(-1); {user: Min(3), pass: Min(8)}.Parse / .Validate; Slice(String().Min(2)).Parse([ok, x])", "results_when_run_first": want, "results_now": got})
